@@ -395,6 +395,11 @@ func ExecRun(t *testing.T, prop string, st Stratum, stIdx int, tape *simrt.Tape,
 			continue
 		}
 		pp := panicProp(p.Stack)
+		if !strings.HasPrefix(st.Name, "net-") && prop != "" && prop != "replay" {
+			// single-property engines (wire, network unit, migration, monitor, transport, fsm): the workload is the
+			// property's own, so is the crash
+			pp = prop
+		}
 		if pp == "C20" && prop != "" && prop != "replay" {
 			// a library panic that no specific property claims belongs to the property whose workload provoked it
 			pp = prop
